@@ -37,7 +37,7 @@ CLAIMS = {
          "7/C10", "contract postconditions plus a lemma over contracts"),
  'C13': ("Decided by contracts on the real formatter and parser: (1) String/Text('G','g','E','e')/MarshalText write exactly the specified text (C14) and that text satisfies the hypothesis FinText/SpecText; (2) setString - and through their own contracts Context.SetString, NewFromString, Decimal.SetString, Context.NewFromString, UnmarshalText - given a text satisfying FinText(s, neg, C, E) (plain notation with exponent <= 0, or scientific with E or e) for a value inside the exponent limits returns no error and exactly form Finite, sign neg, coefficient C, exponent E; given the text of an infinity or a (signalling, negative) NaN exactly that form and sign. The denoted decimal enters the parser's contract as ghost (universally quantified) variables; the two number parsers are used through assumed contracts over a numeral vocabulary (a text that is the decimal text of n behind leading zeros, or a sign and the decimal text of n, is a numeral of that value - the inverse of what strconv.AppendInt and big.Int.Append write). (3) Compose/Decompose and the byte conversions over the uninterpreted big-endian value beval. One open finding: Text('E'/'e') of a coefficient longer than 100001 digits does not parse back (known_findings.json). Value returns that text and Scan of a string or []byte holding it yields the decimal (type switch modelled by dynamic-type tags). Not decided: Text('f') numeric round trip for positive exponents, SetFloat64/Float64 and Scan(float64) (floats); the composition parse(format(d)) == d is two contracts whose conclusion and hypothesis match, not a single machine-checked lemma.",
          "7/C13", "contract postconditions with ghost variables and segment predicates over byte slices and strings (weakest-precondition VCs over go/ssa, z3 e-matching); assumed numeral contracts for strconv/math-big parsers"),
- 'C14': ("The formatting half is decided for every decimal and every verb: Decimal.Append (and through it Text, String, MarshalText) is proved to produce exactly the bytes of a specification written from the property text - sign, NaN/sNaN/Infinity, plain notation iff exponent <= 0 and adjusted exponent >= -6 or a zero with exponent in [-2000,-1], otherwise one digit, optional fraction, E, a signed adjusted exponent; 'e'/'E' always scientific, 'f' always plain, unknown verbs as %x - over the decimal text of the coefficient and of the exponent (loop invariants for the zero padding, all buffer capacities, in place or reallocated). The digits themselves are math/big's and strconv's (assumed: uf_dchar(v, k) is the k-th character of the decimal text of v). Of the parsing half the acceptance direction is decided: every finite numeric string of the grammar (optional sign; digits with at most one point; optional e/E exponent with optional sign; any leading zeros) whose written exponent, fraction length and denoted value are within the limits is accepted with exactly the sign, coefficient and exponent it denotes (ghost description of the text; the number parsers through the assumed numeral vocabulary), as are inf/infinity/nan/snan in any mixture of cases with an optional sign and (for the NaNs) an optional payload below 2^64 (open finding: larger payloads are rejected). Format (and writeMultiple) are proved against a ghost log of the fmt.State: the Text form under the verb (F as f, v and s as G), a sign character for negative values or under the + and space flags, and when a width is given the padding - spaces on the right under '-', else zeros between sign and digits under '0' for finite values, else spaces on the left ('-' overrides '0' as in fmt: the unchanged code failed that clause, fix 6882ed1). Thirteen classes of rejection are proved, most through a ghost position of the offending byte: an ASCII text containing a character that is no digit, sign, point or letter; an ASCII text that starts like a number and contains a letter other than e/E; nan or snan followed by anything but digits (this clause failed on the unchanged tree: nansnan was accepted, fix 8ee1b66); an ASCII word that is neither inf/infinity nor starts with nan/snan; and with a second ghost position: two points, two exponent letters, a sign that is neither first nor right after the exponent letter, the empty text, an empty exponent, a text without any digit that is no special value, no digit before the exponent letter, a sign at the very end (numeral elimination axiom; ParseInt and BigInt.SetString assumed to accept base-10 numerals only). Acceptance and rejection clauses are lifted to Context.SetString, Decimal.SetString, NewFromString, Context.NewFromString (a rejected text returns no decimal and no condition; an error is either that or a trap of the returned condition), UnmarshalText and Scan of strings and byte slices. NOT decided: that everything else outside the grammar is rejected (non-ASCII, misplaced signs/points/e's), grammatical texts the formatter never writes, 'no partial value', unknown verbs under Format (fmt.Fprintf); about arbitrary texts only: a successful parse is well formed, the mantissa carries no second sign, the digit count handed to setExponent is the coefficient's.",
+ 'C14': ("The formatting half is decided for every decimal and every verb: Decimal.Append (and through it Text, String, MarshalText) is proved to produce exactly the bytes of a specification written from the property text - sign, NaN/sNaN/Infinity, plain notation iff exponent <= 0 and adjusted exponent >= -6 or a zero with exponent in [-2000,-1], otherwise one digit, optional fraction, E, a signed adjusted exponent; 'e'/'E' always scientific, 'f' always plain, unknown verbs as %x - over the decimal text of the coefficient and of the exponent (loop invariants for the zero padding, all buffer capacities, in place or reallocated). The digits themselves are math/big's and strconv's (assumed: uf_dchar(v, k) is the k-th character of the decimal text of v). Of the parsing half the acceptance direction is decided: every finite numeric string of the grammar (optional sign; digits with at most one point; optional e/E exponent with optional sign; any leading zeros) whose written exponent, fraction length and denoted value are within the limits is accepted with exactly the sign, coefficient and exponent it denotes (ghost description of the text; the number parsers through the assumed numeral vocabulary), as are inf/infinity/nan/snan in any mixture of cases with an optional sign and (for the NaNs) an optional payload below 2^64 (open finding: larger payloads are rejected). Format (and writeMultiple) are proved against a ghost log of the fmt.State: the Text form under the verb (F as f, v and s as G), a sign character for negative values or under the + and space flags, and when a width is given the padding - spaces on the right under '-', else zeros between sign and digits under '0' for finite values, else spaces on the left ('-' overrides '0' as in fmt: the unchanged code failed that clause, fix 6882ed1). Fourteen classes of rejection are proved, most through a ghost position of the offending byte: an ASCII text containing a character that is no digit, sign, point or letter; an ASCII text that starts like a number and contains a letter other than e/E; nan or snan followed by anything but digits (this clause failed on the unchanged tree: nansnan was accepted, fix 8ee1b66); an ASCII word that is neither inf/infinity nor starts with nan/snan; and with a second ghost position: two points, two exponent letters, a sign that is neither first nor right after the exponent letter, the empty text, an empty exponent, a text without any digit that is no special value, no digit before the exponent letter, a sign at the very end, a point after the exponent letter (that every ASCII text outside the grammar is in one of the classes is an argument on paper, cross-checked exhaustively - bounded - on all 10.4 million texts over a 13-letter alphabet up to length 6) (numeral elimination axiom; ParseInt and BigInt.SetString assumed to accept base-10 numerals only). Acceptance and rejection clauses are lifted to Context.SetString, Decimal.SetString, NewFromString, Context.NewFromString (a rejected text returns no decimal and no condition; an error is either that or a trap of the returned condition), UnmarshalText and Scan of strings and byte slices. NOT decided: that everything else outside the grammar is rejected (non-ASCII, misplaced signs/points/e's), grammatical texts the formatter never writes, 'no partial value', unknown verbs under Format (fmt.Fprintf); about arbitrary texts only: a successful parse is well formed, the mantissa carries no second sign, the digit count handed to setExponent is the coefficient's.",
          "7/C14", "byte-level contracts with segment predicates (quantified array facts with explicit triggers) over go/ssa VCs, z3 e-matching"),
  'C15': ("Decimal.Cmp equals the sign of the exact difference on all three code paths (equal exponents, digit-count shortcut, rescaled comparison); CmpTotal against a lexicographic specification; order lemmas over the specification (reflexive, antisymmetric, transitive via a magnitude-rescaling lemma, class order, zero iff identical).",
          "7/C15", "contract postconditions with pow10 lemma hints; order lemmas as pure SMT goals"),
